@@ -286,6 +286,18 @@ def r10_windows2(text):
         text = text[:m.start()] + new + text[m.end():]
 
 
+def r11_collect(text):
+    """`IDENT.collect()` => `iter_collect(IDENT)`: the iterator adapter chain bound to IDENT is not modelled by Verus; the template
+    declares `iter_collect` as an external_body function whose contract is the trusted specification of collecting that iterator."""
+    n = 0
+    while True:
+        m = re.search(r'\b([a-z_][A-Za-z0-9_]*)\.collect\(\)', text)
+        if not m:
+            return text, n
+        n += 1
+        text = text[:m.start()] + f'iter_collect({m.group(1)})' + text[m.end():]
+
+
 def r7_param_patterns(text):
     """`fn f(.., StructPat { a: x, b: y }: &T, ..) {` => `fn f(.., p__1: &T, ..) { let StructPat { a: x, b: y } = p__1;`
     (Verus: function inputs must be identifiers)."""
@@ -320,7 +332,7 @@ def r7_param_patterns(text):
     return _apply_edits(text, edits), n
 
 
-RULES = [('R0', r0_visibility_and_stats), ('R1', r1_ref_patterns), ('R7', r7_param_patterns), ('R8', r8_assert_eq), ('R9', r9_subslice_copy), ('R10', r10_windows2),
+RULES = [('R0', r0_visibility_and_stats), ('R1', r1_ref_patterns), ('R7', r7_param_patterns), ('R8', r8_assert_eq), ('R9', r9_subslice_copy), ('R10', r10_windows2), ('R11', r11_collect),
          ('R2', r2_array_literal_loops), ('R3', r3_zip_enumerate)]
 
 
